@@ -8,69 +8,70 @@
 
 /*@unit
 name: mbuff.append.nonempty
-define: U_APPEND, U_NONEMPTY
+define: VERIF_MB_GHOSTCOPY, U_APPEND, U_NONEMPTY
 src: mbuff.c
 enforce: spif_mbuff_append
-backend: z3,sat
+backend: sat
 timeout: 150
 */
 /*@unit
 name: mbuff.append.empty
-define: U_APPEND, U_EMPTY
+define: VERIF_MB_GHOSTCOPY, U_APPEND, U_EMPTY
 src: mbuff.c
 enforce: spif_mbuff_append
-backend: z3,sat
+backend: sat
 timeout: 150
 */
 /*@unit
 name: mbuff.append_from_ptr.nonempty
-define: U_APPEND_PTR, U_NONEMPTY
+define: VERIF_MB_GHOSTCOPY, U_APPEND_PTR, U_NONEMPTY
 src: mbuff.c
 enforce: spif_mbuff_append_from_ptr
-backend: z3,sat
+backend: sat
 timeout: 150
 */
 /*@unit
 name: mbuff.append_from_ptr.empty
-define: U_APPEND_PTR, U_EMPTY
+define: VERIF_MB_GHOSTCOPY, U_APPEND_PTR, U_EMPTY
 src: mbuff.c
 enforce: spif_mbuff_append_from_ptr
-backend: z3,sat
+backend: sat
 timeout: 150
 */
 /*@unit
 name: mbuff.prepend.nonempty
-define: U_PREPEND, U_NONEMPTY
+define: VERIF_MB_GHOSTCOPY, U_PREPEND, U_NONEMPTY
 src: mbuff.c
 enforce: spif_mbuff_prepend
-backend: z3,sat
+backend: sat
 timeout: 150
 */
 /*@unit
 name: mbuff.prepend.empty
-define: U_PREPEND, U_EMPTY
+define: VERIF_MB_GHOSTCOPY, U_PREPEND, U_EMPTY
 src: mbuff.c
 enforce: spif_mbuff_prepend
-backend: z3,sat
+backend: sat
 timeout: 150
 */
 /*@unit
 name: mbuff.prepend_from_ptr.nonempty
-define: U_PREPEND_PTR, U_NONEMPTY
+define: VERIF_MB_GHOSTCOPY, U_PREPEND_PTR, U_NONEMPTY
 src: mbuff.c
 enforce: spif_mbuff_prepend_from_ptr
-backend: z3,sat
+backend: sat
 timeout: 150
 */
 /*@unit
 name: mbuff.prepend_from_ptr.empty
-define: U_PREPEND_PTR, U_EMPTY
+define: VERIF_MB_GHOSTCOPY, U_PREPEND_PTR, U_EMPTY
 src: mbuff.c
 enforce: spif_mbuff_prepend_from_ptr
-backend: z3,sat
+backend: sat
 timeout: 150
 */
 #include "vprelude.h"
+#include "env_mbuff.h"
 #include "mbuff.h"
 #include "src/mbuff.c"
 
@@ -102,13 +103,13 @@ __CPROVER_ensures(MBUFF_POST(self))
 __CPROVER_ensures(self->len == OLEN(self) + other->len)
 __CPROVER_ensures(self->size >= __CPROVER_old(self->size))
 # ifdef U_APPEND
-__CPROVER_ensures(!((spif_memidx_t) vg_k < OLEN(self)) || self->buff[vg_k] == OLD_BYTE(self, vg_k))
-__CPROVER_ensures(!((spif_memidx_t) vg_k >= OLEN(self) && (spif_memidx_t) vg_k < self->len) ||
-                  self->buff[vg_k] == other->buff[vg_k - OLEN(self)])
+__CPROVER_ensures(!(vg_k < (size_t) OLEN(self)) || self->buff[vg_k] == OLD_BYTE(self, vg_k))
+__CPROVER_ensures(!(vg_k >= (size_t) OLEN(self) && vg_k < (size_t) self->len) ||
+                  self->buff[vg_k] == other->buff[vg_k - (size_t) OLEN(self)])
 # else
-__CPROVER_ensures(!((spif_memidx_t) vg_k < other->len) || self->buff[vg_k] == other->buff[vg_k])
-__CPROVER_ensures(!((spif_memidx_t) vg_k >= other->len && (spif_memidx_t) vg_k < self->len) ||
-                  self->buff[vg_k] == OLD_BYTE(self, vg_k - other->len))
+__CPROVER_ensures(!(vg_k < (size_t) other->len) || self->buff[vg_k] == other->buff[vg_k])
+__CPROVER_ensures(!(vg_k >= (size_t) other->len && vg_k < (size_t) self->len) ||
+                  self->buff[vg_k] == OLD_BYTE(self, vg_k - (size_t) other->len))
 # endif
 ;
 void harness(void)
@@ -136,13 +137,13 @@ __CPROVER_ensures(MBUFF_POST(self))
 __CPROVER_ensures(self->len == OLEN(self) + len)
 __CPROVER_ensures(self->size >= __CPROVER_old(self->size))
 # ifdef U_APPEND_PTR
-__CPROVER_ensures(!((spif_memidx_t) vg_k < OLEN(self)) || self->buff[vg_k] == OLD_BYTE(self, vg_k))
-__CPROVER_ensures(!((spif_memidx_t) vg_k >= OLEN(self) && (spif_memidx_t) vg_k < self->len) ||
-                  self->buff[vg_k] == other[vg_k - OLEN(self)])
+__CPROVER_ensures(!(vg_k < (size_t) OLEN(self)) || self->buff[vg_k] == OLD_BYTE(self, vg_k))
+__CPROVER_ensures(!(vg_k >= (size_t) OLEN(self) && vg_k < (size_t) self->len) ||
+                  self->buff[vg_k] == other[vg_k - (size_t) OLEN(self)])
 # else
-__CPROVER_ensures(!((spif_memidx_t) vg_k < len) || self->buff[vg_k] == other[vg_k])
-__CPROVER_ensures(!((spif_memidx_t) vg_k >= len && (spif_memidx_t) vg_k < self->len) ||
-                  self->buff[vg_k] == OLD_BYTE(self, vg_k - len))
+__CPROVER_ensures(!(vg_k < (size_t) len) || self->buff[vg_k] == other[vg_k])
+__CPROVER_ensures(!(vg_k >= (size_t) len && vg_k < (size_t) self->len) ||
+                  self->buff[vg_k] == OLD_BYTE(self, vg_k - (size_t) len))
 # endif
 ;
 void harness(void)
